@@ -137,7 +137,7 @@ fn method_program(m: &MDesc, id: u64, seed: u64, h: &mut H, small: bool) {
 		ParKind::Renko => Par::Renko(*r.pick(&[0.01, 0.05, 0.1]) as V, *r.pick(&[Source::Close, Source::HL2, Source::TP])),
 		_ => crate::work::params_for(m, len, &mut r),
 	};
-	let class = r.below(10) as usize;
+	let class = if m.name == "SMM" { (id % 10) as usize } else { r.below(10) as usize };
 	let steps = if small { 3 * par.len() + 12 } else { (3 * par.len() + 60).min(500) };
 	let xs = stream_for(m, class, seed ^ id, steps, par.len().max(1));
 	h.op("params", &[len, class as u64]);
@@ -209,7 +209,9 @@ fn programs(ctx: &Ctx, small: bool) -> Vec<(u64, String)> {
 	}
 	let per_m = if small { 1 } else { ctx.pick(12, 120) };
 	for (mi, m) in reg::methods().iter().enumerate() {
-		for j in 0..per_m {
+		// SMM is the only method with code of its own under `unsafe_performance`: ten times the programs, every value class
+		let k = if m.name == "SMM" && !small { per_m * 10 } else { per_m };
+		for j in 0..k.min(999) {
 			v.push((100_000 + mi as u64 * 1000 + j, format!("method:{}#{j}", m.name)));
 		}
 	}
